@@ -20,6 +20,8 @@ pub enum Leg {
     },
     /// deterministic boundary sweep of the queue differential (enumeration inside the generator)
     QueueSweep { jmax_q: usize, jmax_t: usize },
+    /// the VM program stream on one vrun process per supported feature set
+    Matrix,
 }
 
 pub struct PropSpec {
@@ -56,6 +58,18 @@ fn timers_leg(focus: &'static str, quick: u32, thorough: u32) -> Leg {
 pub fn all() -> Vec<PropSpec> {
     let mut v = all_base();
     v.extend(vm_specs());
+    v.push(PropSpec {
+        min_nontrivial: 200,
+        id: "C18",
+        legs: vec![Leg::Matrix],
+        rule: "programs generated as for C01-C06/C16 (matrix mode: no deferral after the Stakker is gone, whose destination differs per deferrer by documented design) are executed by 19 vrun processes, one per feature set printed by /repo/run-feature-combinations plus the default set; cases = programs, each executed on every set; non-trivial = the program touches at least three of: an actor with held Prep calls (flushed or discarded), a Drop-handler deferral, a timer firing, main queue grown beyond 1 KiB; distinct = distinct byte strings",
+        assumptions: vec![
+            "the 18 feature sets are regenerated from /repo/run-feature-combinations at check time; sets outside that list are not run",
+            "matrix builds use a reduced closure-shape family (24 shapes) to keep 19 builds fast; the full family is exercised by C01/C17",
+            "each vrun also runs the lock-step monitor, so every set individually gets the C01-C06 oracles; the trace hash covers item starts with the now value seen, un-run drops, Ret/Fwd handler invocations, notifications with cause and payload tag, value drops, message drops, returned bools/Options/lens",
+            "Actor::id()/LogID values and logger output are not part of the trace (documented to differ without the logger feature)",
+        ],
+    });
     v
 }
 
@@ -180,6 +194,10 @@ pub fn describe_leg(leg: &Leg, thorough: bool) -> Value {
             "cases_requested": if thorough { *th } else { *quick },
             "byte_length_range": if thorough { [len_t.0, len_t.1] } else { [len_q.0, len_q.1] },
         }),
+        Leg::Matrix => json!({
+            "kind": "feature-matrix differential: proptest programs sent to one persistent vrun process per feature set",
+            "programs_requested": if thorough { 400_000 } else { 40_000 },
+        }),
         Leg::QueueSweep { jmax_q, jmax_t } => json!({
             "kind": "deterministic boundary sweep (enumeration), sharded over worker processes",
             "growth_levels": if thorough { *jmax_t } else { *jmax_q },
@@ -207,6 +225,7 @@ pub fn run_leg(prop: &str, idx: usize, leg: &Leg, thorough: bool, deadline: Inst
             if thorough { *len_t } else { *len_q },
             deadline,
         ),
+        Leg::Matrix => crate::matrix::run_leg(prop, idx, thorough, deadline),
         Leg::QueueSweep { jmax_q, jmax_t } => run_sweep(prop, idx, if thorough { *jmax_t } else { *jmax_q }, deadline),
     }
 }
@@ -279,6 +298,7 @@ pub fn run_findings(prop: &str) -> (Vec<String>, Vec<(String, String)>, usize) {
 
 pub fn replay_special(engine: &str, v: &Value, path: &Path, _verbose: bool) -> i32 {
     match engine {
+        "matrix" => crate::matrix::replay(v, path),
         "queue-sweep" => {
             let g = |k: &str| v[k].as_u64().unwrap() as usize;
             match vcore::queues::sweep_point(g("j"), g("k"), g("shape"), g("tail")) {
